@@ -90,6 +90,9 @@ func canon(sb *strings.Builder, v reflect.Value, nz bool) {
 	case reflect.Struct:
 		sb.WriteString("(st")
 		for i := 0; i < v.NumField(); i++ {
+			if v.Type().Field(i).Name == "_" {
+				continue
+			}
 			sb.WriteString("_")
 			canon(sb, v.Field(i), nz)
 		}
